@@ -253,7 +253,7 @@ func fxAlphabet(n, t int) []fxEvent {
 		fxEvent{string(sif.EventSigningInit), 0, "valid"},
 		fxEvent{string(dpf.EventDKGInitProcess), 0, "valid"},
 		fxEvent{"event_that_does_not_exist", 0, "valid"},
-		fxEvent{"event_sig_proposal_set_validated", 0, "valid"},       // internal event name
+		fxEvent{"event_sig_proposal_set_validated", 0, "valid"},        // internal event name
 		fxEvent{"event_dkg_master_key_confirmed_internal", 0, "valid"}, // internal event name
 	)
 	return a
@@ -352,7 +352,9 @@ type fxOracle struct {
 	Key       string // first announced group key variant in the keys phase
 }
 
-func (o fxOracle) key() string { return fmt.Sprintf("%d/%x/%v/%s", o.Phase, o.Delivered, o.Cancelled, o.Key) }
+func (o fxOracle) key() string {
+	return fmt.Sprintf("%d/%x/%v/%s", o.Phase, o.Delivered, o.Cancelled, o.Key)
+}
 
 func popcount(x uint32) int {
 	c := 0
